@@ -16,6 +16,7 @@ Not decided: residual ranges, predictor / wasted-bit semantics, that the decoded
 """
 from rules.common import *
 from rules.tablelib import *
+from rules import iolib, cachelib
 from okimplies import OkImplies, fact_str, TOP
 import struct
 
@@ -265,6 +266,9 @@ def run(ctx, rep):
             cl = F.closures_of(b)
             upd = [1 for c in cl for _, t in c.calls() if (t["f"].get("path") or "").endswith("Checksum::update")]
             rep.check("C02.crc", "%s folds Checksum::update over the transferred bytes" % self_re, len(upd) >= 1, loc_of(b))
+
+    iolib.count_rules(ctx, rep, "C02")
+    cachelib.cache_rules(ctx, rep, "C02")
 
     # ---- C02.fixed -------------------------------------------------------------------------------------------------
     fc = F.statics.get("stream::SubframeHeaderType::FIXED_COEFFS")
